@@ -108,7 +108,16 @@
             []byte).  A function containing one is translated to a function into [option]:
             [if bytes_len b <=? k then None else ...], every [return] wrapped in [Some].  Such a
             function cannot be called from another translated function;
-          - a slice whose element type is outside the subset (e.g. [[]*ValueDescription]) is kept
+          - LOOPS, slices of structs, [*S] results, [range] over strings: see the comments at
+            [go_loop] / [go_range], [go_utf8_decode] / [go_range_string], [list_len] / [go_deref] below;
+          - library functions WITHOUT a model ([unicode.IsDigit], [unicode.IsUpper], ...) are not
+            defined here: a translated function that uses one takes it as a leading parameter
+            [Z -> bool], and its lemma in Equiv.v is stated for every such function;
+          - a named result that the body never mentions is an ordinary result; the statement
+            [defer func() { if err != nil { err = fmt.Errorf(...) } }()] (err the named error result)
+            replaces a non-nil error by a non-nil error: under the reduction of errors to nil / non-nil
+            it has no effect and is skipped; every other [defer] is rejected;
+          - a slice whose element type is outside the subset (e.g. [[]string]) is kept
             as its LENGTH only ([go_len], a non-negative integer; the only operation is [len]);
           - a [string] is the [list Z] of its bytes (constants, locals, parameters and results);
             [==], [!=] and [switch] on strings compare the byte sequences ([go_string_eqb]);
